@@ -492,6 +492,19 @@ def rule_buf(fx, out):
                             'numBytes = %s = product(shape) x itemsize' % '*'.join(got) if ok else 'numBytes() = %s but shape x itemsize = %s (view.len must equal product(shape) x itemsize)' % ('*'.join(got), '*'.join(expect)), f['loc']))
     else:
         out.append(('R19.buf', 'buf.len', UNDECIDED, 'BufferAPI constructor / shape assignments not found', ''))
+    # (iii-b) getbuffer fills the Py_buffer from the BufferAPI object it created: the item size is the size of one *component*
+    # (atomicSize), which is what shape (n, width) and the format character describe; len, buf and readonly come from the same object
+    want_fields = {'itemsize': r'^\w+->atomicSize\(\)$', 'len': r'^\w+->numBytes\(\)$', 'buf': r'^\w+->buffer\(\)$', 'readonly': r'^\w+->readOnly\(\)$'}
+    seen = set()
+    for f in fx.fns:
+        if not f.name.split('::')[-1].startswith('getbuffer') or f.key in seen: continue
+        fw = {e['field']: e['rhs'] for e in f.events if e['k'] == 'fieldw' and e['field'] in want_fields}
+        if not fw: continue
+        seen.add(f.key); n += 1
+        badf = [(k, fw.get(k)) for k, rx in want_fields.items() if k not in fw or not re.match(rx, fw[k].replace(' ', ''))]
+        out.append(('R19.buf', 'buf.fields:%s' % sname(f), VIOLATED if badf else HOLDS,
+                    ('view->%s = %s; the exported view must take it from the BufferAPI object (%s), otherwise len != product(shape) x itemsize or the consumer strides through components of the wrong size' % (badf[0][0], badf[0][1], want_fields[badf[0][0]].strip('^$').replace('\\', ''))) if badf else
+                    'itemsize = atomicSize(), len = numBytes(), buf = buffer(), readonly = readOnly() of the same BufferAPI object', f['loc']))
     # (iv) traits tables
     tr = {}
     for s in fx.specs: tr.setdefault(s['arg'], {})[s['trait']] = s
